@@ -26,6 +26,13 @@ Conventions.
 * Ghost fields (never read by the transcribed code): `Task.upc` (the caller's own outstanding
   `pause()` calls), `State.log` (one record per `next()` call with the status the task had at
   that moment), `State.dblFire`.
+* The histories of the model interleave operations *between* work units (no re-entrant calls from
+  inside `next()` or from a `whenDone` callback).  On those histories the guards
+  `if self._completionState is None` of `_oneWorkUnit` and
+  `if taskObj._completionState is None and not taskObj._pauseCount` of `Cooperator.stop` (added by
+  the fix for re-entrant stops) are always true — a task reached through `_tasks` is unpaused and
+  uncompleted (`in_tasks_iff_runnable`) — so `workUnit` / `stopLoop` transcribe the guarded code
+  without a branch.  Re-entrant histories are judged on the real code by the oracle only.
 * The scheduler is the deterministic one of the harness (a tick happens iff a delayed call is
   pending); the termination predicate is a work-unit budget per tick.
 -/
